@@ -77,6 +77,10 @@ def case_history(p):
             else:
                 rig.drop_at = None
                 rig.ops = 0
+            if name == "reset":
+                rig.reset_accessory()
+                trace.append((op, "done"))
+                continue
             if name == "start":
                 exc = rig.start()
                 ret, pin = None, None
@@ -90,7 +94,7 @@ def case_history(p):
             trace.append((op, "ret" if ret is not None else type(exc).__name__ if exc else "ok", rig.ops, dropped))
             for sig, det in _judge_op(rig, name, pin, before, ret, exc, dropped):
                 out.append((sig, dict(det, trace=[list(t) for t in trace])))
-            if ret is not None or out:
+            if out or (ret is not None and "reset" not in p["ops"]):
                 break
         p["_trace"] = trace
         p["_ops"] = rig.ops
@@ -186,6 +190,10 @@ def histories(tier, seed):
         for sd in sdrops:
             hs.append([sd, "start", "right"])
             hs.append([sd, "right"])
+        # paired, then the accessory is factory-reset and paired again through the SAME discovery object (what an application holds per
+        # advertised accessory): the second run is a pairing of its own
+        for tail in (["start", "right"], ["start", "wrong"], ["start", "wrong", "start", "right"], ["right"], ["wrong"]):
+            hs.append(["start", "right", "reset"] + tail)
         if not quick:
             for a in ["wrong"] + drops:
                 for b in ["wrong"] + drops:
